@@ -50,10 +50,23 @@ func (j *jitterConn) Write(p []byte) (int, error) {
 
 // sessionParams: the permessage-deflate parameters of a session kind (window sizes are negotiated
 // only; compress/flate always uses the 32 KiB window, which every receiver accepts).
+var sharedDialers = func() map[int]ws.Dialer {
+	m := map[int]ws.Dialer{}
+	for _, kind := range []int{3, 7} {
+		tag := fmt.Sprintf("k%d", kind)
+		o := httphead.Option{Name: []byte("permessage-deflate")}
+		o.Parameters.Set([]byte("server_max_window_bits"), []byte("12"))
+		o.Parameters.Set([]byte("client_max_window_bits"), []byte("14"))
+		m[kind] = ws.Dialer{Protocols: []string{"proto-" + tag, "zzz"}, Extensions: []httphead.Option{o, {Name: []byte("x-unused")}},
+			Header: ws.HandshakeHeaderString("X-Client: " + tag + "\r\n")}
+	}
+	return m
+}()
+
 func sessionParams(kind int) wsflate.Parameters {
 	switch kind {
 	case 3:
-		return wsflate.Parameters{ServerMaxWindowBits: 10, ClientMaxWindowBits: 12}
+		return wsflate.Parameters{ServerMaxWindowBits: 10, ClientMaxWindowBits: 11}
 	case 5:
 		return wsflate.Parameters{ServerNoContextTakeover: true, ClientNoContextTakeover: true, ServerMaxWindowBits: 15}
 	case 7:
@@ -96,7 +109,11 @@ func session(kind int, id int) (obs []string, late func() []string, err error) {
 			hs, serr = ws.Upgrade(cb) // DefaultUpgrader
 		} else {
 			ext := wsflate.Extension{Parameters: sessionParams(kind)}
-			u := ws.Upgrader{Protocol: func(p []byte) bool { return string(p) == "proto-"+tag }, Negotiate: ext.Negotiate,
+			negotiate := func(o httphead.Option) (httphead.Option, error) {
+				sobs = append(sobs, "offer:"+extString(o)) // what this session's client offered, as the server sees it
+				return ext.Negotiate(o)
+			}
+			u := ws.Upgrader{Protocol: func(p []byte) bool { return string(p) == "proto-"+tag }, Negotiate: negotiate,
 				Header: ws.HandshakeHeaderString("X-Session: " + tag + "\r\n")}
 			hs, serr = u.Upgrade(cb)
 		}
@@ -159,6 +176,11 @@ func session(kind int, id int) (obs []string, late func() []string, err error) {
 			Header: ws.HandshakeHeaderString("X-Client: " + tag + "\r\n")}
 		if kind%4 == 0 {
 			d = ws.DefaultDialer
+		}
+		if kind == 3 || kind == 7 {
+			// a dialer value shared by all sessions of this kind (as an application's package-level
+			// dialer would be); the server answers with parameters that differ from the offer
+			d = sharedDialers[kind]
 		}
 		uu, _ := url.Parse("ws://session.test/" + tag)
 		br, hs, e := d.Upgrade(ca, uu)
